@@ -62,6 +62,7 @@ def main(ctx):
     if m:
         ctx.extra["escape_outcomes"] = m.group(2)
     ctx.samples.append(dict(summary=[l for l in lines]))
+    overload_stream(ctx, ctx.scale(150, 2000))
     # known findings, replayed on the real code
     sys.path.insert(0, HERE)
     for e in ctx.known:
@@ -74,8 +75,76 @@ def main(ctx):
     ctx.extra["rule"] = ("generated Doxygen-shaped XML directories x lookup sequences (present/partial/missing/overloaded members), "
                          "documentation texts over a Unicode alphabet incl. quotes, backslashes, controls, C1, NBSP, astral; "
                          "distinct = distinct (directory, lookup) pairs and texts")
-    return fw.finish(ctx, assumptions=["ElementTree/expat parsing is outside the model", "g++ is the oracle for literal decoding",
+    return fw.finish(ctx, search=lambda c: overload_stream(c, c.scale(400, 3000), off=5, collect=False),
+                     assumptions=["ElementTree/expat parsing is outside the model", "g++ is the oracle for literal decoding",
                                        "str.isprintable table regenerated from the running interpreter"])
+
+
+def overload_stream(ctx, n, off=0, collect=True):
+    """The property's own observation for overload matching, on clean Doxygen trees (one class, every parameter named,
+    every member's brief description a unique marker): the docstring returned for (class, method, argument names)
+    must carry the marker of a member of that class with that name whose parameter names are the argument names —
+    all of them, or (the rule the code documents for members with defaulted parameters) the required ones only.
+    A fresh XMLDocParser per lookup keeps the per-key overload counter out of the picture."""
+    import io, contextlib, random, shutil, tempfile
+    from gtwrap.xml_parser.xml_parser import XMLDocParser
+    rng = random.Random(ctx.seed * 7919 + 17 + off)
+    names = ["rows", "cols", "zero", "key", "value", "tol", "x", "y"]
+    first = None
+    for case in range(n):
+        d = tempfile.mkdtemp(prefix="verif_c17o_")
+        try:
+            members = []
+            base = rng.sample(names, rng.randint(1, 4))
+            for k in range(rng.randint(1, 4)):
+                r = rng.random()
+                if r < 0.5:
+                    ps = base[:rng.randint(0, len(base))]
+                elif r < 0.7:
+                    ps = list(base)
+                else:
+                    ps = rng.sample(names, rng.randint(0, 4))
+                ndef = rng.choice([0, 0, 1, 2, 3])
+                ndef = min(ndef, len(ps))
+                members.append((ps, ndef, "MARK%dQ" % k))
+            body = "".join(
+                '<memberdef kind="function" id="m%d"><type>void</type><name>f</name><argsstring>(%s)</argsstring>%s'
+                '<briefdescription><para>%s</para></briefdescription><detaileddescription></detaileddescription></memberdef>'
+                % (i, ", ".join(ps), "".join('<param><type>T</type><declname>%s</declname>%s</param>' % (
+                    nm, "<defval>1</defval>" if j >= len(ps) - ndef else "") for j, nm in enumerate(ps)), mark)
+                for i, (ps, ndef, mark) in enumerate(members))
+            open(os.path.join(d, "index.xml"), "w").write(
+                '<doxygenindex><compound refid="classA" kind="class"><name>A</name></compound></doxygenindex>')
+            open(os.path.join(d, "classA.xml"), "w").write(
+                '<doxygen><compounddef id="classA" kind="class"><compoundname>A</compoundname><sectiondef kind="public-func">'
+                + body + '</sectiondef></compounddef></doxygen>')
+            lookups = [ps for ps, _, _ in members] + [ps[:len(ps) - nd] for ps, nd, _ in members]
+            lookups += [ps[:len(ps) - rng.randint(0, nd)] for ps, nd, _ in members if nd >= 2]
+            for args in lookups:
+                ctx.evaluations += 1
+                try:
+                    with contextlib.redirect_stdout(io.StringIO()):
+                        doc = XMLDocParser().extract_docstring(d, "A", "f", list(args))
+                except Exception as ex:  # noqa
+                    doc = "<<%s>>" % type(ex).__name__
+                got = [m for m in members if m[2] in doc]
+                ok = [m for m in members if m[0] == args or m[0][:len(m[0]) - m[1]] == args]
+                bad = None
+                if any(m not in ok for m in got):
+                    bad = "a binding received the documentation of an overload with other parameter names"
+                elif ok and not got:
+                    bad = "a documented member with exactly these parameter names yields no documentation"
+                if collect:
+                    ctx.count("overload_lookups")
+                    ctx.count("overload_" + ("documented" if got else "empty"))
+                if bad:
+                    w = dict(members=[dict(params=m[0], defaulted=m[1], brief=m[2]) for m in members], lookup=list(args), got=doc)
+                    first = first or dict(what=bad, **w)
+                    if collect:
+                        ctx.spec_fail(bad, **w)
+        finally:
+            shutil.rmtree(d, ignore_errors=True)
+    return first
 
 
 def replay_finding(e):
